@@ -230,6 +230,19 @@ def _c19(P, name, decl, rng):
         return None, n          # C03's concern (and a listed known finding there)
     except Exception:
         return None, n
+    # a later deserialize call must not change an instance handed out earlier (shared / cached instances)
+    shown = repr(back)
+    for other in (before + bytes([65, 66, 67]), before[:max(0, len(before) - 1)], b""):
+        r2 = P.counting_reader(other)
+        r2.chunked_reading_mode = P.ctx[name]
+        try:
+            P.cls(name).deserialize(r2)
+        except BaseException:
+            pass
+        n += 1
+        if repr(back) != shown:
+            return {"kind": "deserialize-changes-an-earlier-instance", "property": "C19", "before": shown[:300],
+                    "after": repr(back)[:300], "first_bytes": list(before)[:60], "second_bytes": list(other)[:60]}, n
     try:
         s1 = bytes(P.serialize(name, back, P.ctx[name]).to_bytearray())
     except Exception:
